@@ -80,7 +80,10 @@ def replay_failure(prop, res, ov, run_one):
         p = subprocess.run(cmd, cwd=base, env=_env(), stdout=subprocess.PIPE, stderr=subprocess.STDOUT,
                            timeout=1800, text=True, errors="replace")
         txt = p.stdout
-        failed = bool(re.search(r"test result: FAILED|panicked at", txt)) and "1 failed" in txt
+        # the harness' assertion fails natively: a failed test, or - when the panic unwinds into a
+        # destructor - an aborted test process (SIGABRT) after "panicked at" in the test's thread
+        failed = (bool(re.search(r"test result: FAILED", txt)) and "1 failed" in txt) or \
+                 (p.returncode != 0 and bool(re.search(r"thread '[^']*%s[^']*'[^\n]*panicked at" % re.escape(test), txt)))
         ran = bool(re.search(r"running 1 test", txt))
         tail = "\n".join(txt.splitlines()[-25:])
         runs.append({"profile": "release" if prof else "dev", "ran": ran, "failed_natively": failed,
@@ -139,7 +142,7 @@ def replay_file(path):
         cmd = ["cargo", "kani", "playback", "-Z", "concrete-playback", "--", m.group(1)]
         p = subprocess.run(cmd, cwd=ov, env=_env(), stdout=subprocess.PIPE, stderr=subprocess.STDOUT, text=True)
         print("\n".join(p.stdout.splitlines()[-30:]))
-        failed = "1 failed" in p.stdout
+        failed = "1 failed" in p.stdout or (p.returncode != 0 and "panicked at" in p.stdout and "running 1 test" in p.stdout)
         if failed:
             print("VIOLATION property=%s replay=%s" % (rec["property"], path))
             return 1
